@@ -294,6 +294,11 @@ class LocalShare:
                     os.rename(tmpSharedPath, sharedPath)
                 except OSError as e:
                     if e.errno in (errno.ENOTEMPTY, errno.EEXIST):
+                        if mayMove:
+                            # Give the workspace back. The caller might not
+                            # be able to use the package of the winner.
+                            shutil.move(os.path.join(tmpSharedPath, "workspace"),
+                                        workspace)
                         return sharedPath, False
                     raise
 
